@@ -410,6 +410,15 @@ class Interp:
             return a.e == b.e
         if isinstance(a, VUn) and isinstance(b, VUn) and a.t == b.t:
             return a.e == b.e
+        ja, jb = type(a).__name__ == "VJson", type(b).__name__ == "VJson"
+        if ja != jb:
+            # a dynamically typed (Json) value against a python str / None / dict: compare with the injected value
+            # (numbers are left alone: python's 1 == 1.0 is not representation identity)
+            j, o = (a, b) if ja else (b, a)
+            if isinstance(o, (VStr, VNone, VMap)) or type(o).__name__ == "VDictRec":
+                e = j.t.coerce_in(o)
+                if e is not None:
+                    return j.e == e
         if isinstance(a, VTuple) and isinstance(b, VTuple):
             if len(a.items) != len(b.items):
                 return z3.BoolVal(False)
